@@ -20,6 +20,8 @@ type HevcCache struct {
 	vps      *rtp.Packet // 视频参数集包
 	sps      *rtp.Packet // 序列参数集包
 	pps      *rtp.Packet // 图像参数集包
+	keyRun   bool        // 上一个视频片包是关键帧片
+	keyTs    uint32      // 该关键帧的 RTP 时间戳
 }
 
 // NewHevcCache 创建 HEVC 缓存
@@ -58,6 +60,14 @@ func (cache *HevcCache) CachePack(pack Pack) bool {
 		return false
 	}
 
+	// 一个关键帧可能由多个片包组成（RTP 时间戳相同）：后续的片属于同一关键帧，
+	// 不能重新开始 GOP，也不是关键帧的起点
+	if islice && cache.keyRun && cache.keyTs == rtppack.Timestamp {
+		islice = false
+	} else {
+		cache.keyRun, cache.keyTs = islice, rtppack.Timestamp
+	}
+
 	if cache.cacheGop { // 需要缓存 GOP
 		if islice { // 关键帧
 			cache.gop.Reset()
@@ -78,6 +88,7 @@ func (cache *HevcCache) Reset() {
 	cache.sps = nil
 	cache.pps = nil
 	cache.gop.Reset()
+	cache.keyRun = false
 }
 
 // PushTo 入列到指定的队列
